@@ -160,6 +160,19 @@ func c44RandValue(rng *rand.Rand, item int) string {
 	case c44Electrum:
 		return fmt.Sprintf("%s://electrum-%s.example.org:%d", []string{"tcp", "ssl", "ws", "wss"}[rng.Intn(4)], strings.ToLower(c44RandHex(rng, 6)), 50000+rng.Intn(10))
 	}
+	// explicitly configured contract addresses are sometimes malformed (a
+	// dropped character, a non-hex digit, a missing prefix): they are still
+	// explicit values and must not be replaced by a default silently
+	switch rng.Intn(8) {
+	case 0:
+		return "0x" + c44RandHex(rng, 39)
+	case 1:
+		h := []byte(c44RandHex(rng, 40))
+		h[rng.Intn(40)] = 'g'
+		return "0x" + string(h)
+	case 2:
+		return c44RandHex(rng, 41)
+	}
 	return "0x" + c44RandHex(rng, 40)
 }
 
@@ -536,7 +549,14 @@ func c44Check(r *verifkit.Run, dir string, seq int, c *c44Case, defaults map[str
 				}
 				if i >= 2 {
 					addr, err := cfg.Ethereum.ContractAddress(c44Contracts[i-2])
-					if err != nil || addr != common.HexToAddress(gotVal) {
+					if !common.IsHexAddress(gotVal) {
+						// a malformed explicit address is kept and reported as
+						// invalid; it must never resolve to some address
+						stats["kept_explicit_malformed"]++
+						if err == nil {
+							r.Violation("contract:malformed-resolved:"+c44SourceNames[c.Source[i]], "a malformed explicit contract address resolves to an address without an error", desc, witness)
+						}
+					} else if err != nil || addr != common.HexToAddress(gotVal) {
 						r.Violation("contract:unreadable:"+c44SourceNames[c.Source[i]], "explicit contract address is stored but ContractAddress does not return it", desc, witness)
 					}
 				}
